@@ -1,6 +1,7 @@
 import GmQuic.Drv.Core
 import GmQuic.Model.Flow
 import GmQuic.Model.StreamWindow
+import GmQuic.Model.StreamRevise
 import GmQuic.Spec.Rfc9000Windows
 /-!
 Line driver for C11, run `C11c`: both connection-level flow controllers, exact comparison of every
@@ -125,6 +126,8 @@ structure Ep where
   ctl : SendCtl := SendCtl.init 0
   rc : RecvCtl := RecvCtl.init 0
   snd : List (Nat × Sndr) := []
+  ms : Nat × Nat := (1000000000, 1000000000)   -- `LocalStreamIds::max` (bidi, uni)
+  un : Nat × Nat := (0, 0)                     -- `LocalStreamIds::unallocated`
   rcv : List (Nat × Rcvr) := []
 
 def lookup {α : Type} (l : List (Nat × α)) (k : Nat) : Option α := (l.find? (·.1 == k)).map (·.2)
@@ -159,6 +162,38 @@ def rxShow (e : Ep) (sid : Nat) (r : Rcvr × RxObs) : Ep × String :=
     (e', s!"fresh={n} {s}")
   | (_, .flowControl) => (e, "err=FlowControl")
   | (_, .finalSize) => (e, "err=FinalSize")
+
+def isUni (sid : Nat) : Bool := (sid / 2) % 2 == 1
+def isLocal (e : Ep) (sid : Nat) : Bool := sid % 2 == (if e.w == .server then 1 else 0)
+def pick2 (p : Nat × Nat) (uni : Bool) : Nat := if uni then p.2 else p.1
+def put2 (p : Nat × Nat) (uni : Bool) (v : Nat) : Nat × Nat := if uni then (p.1, v) else (v, p.2)
+/-- `LocalStreamIds::opened_streams(dir)`. -/
+def openedS (e : Ep) (uni : Bool) : Nat := min (pick2 e.un uni) (pick2 e.ms uni)
+/-- `stream_allowed` of `try_load_data_into_once`. -/
+def allowedS (e : Ep) (sid : Nat) : Bool := !isLocal e sid || sid / 4 < openedS e (isUni sid)
+def noteOpen (e : Ep) (sid : Nat) : Ep := { e with un := put2 e.un (isUni sid) (sid / 4 + 1) }
+def parse2 (s : String) : Option (Nat × Nat) :=
+  match (s.splitOn ",").map String.toNat? with
+  | [some a, some b] => some (a, b)
+  | _ => none
+
+/-- `DataStreams::revise_params` + `ArcSendControler::revise_max_data`, the way `apply_parameters` of
+`qconnection/src/builder.rs` runs them when the handshake completes. -/
+def reviseS (e : Ep) (rej : Bool) (r : PId → Nat) (rmd : Nat) (ms : Nat × Nat) : Ep × String :=
+  let ob := openedS e false
+  let ou := openedS e true
+  let snd' := e.snd.map fun (sid, h) =>
+    let uni := isUni sid
+    -- `Output::revise_max_stream_data` filters on direction and index only
+    if sid / 4 < (if uni then ou else ob) then (sid, h.revise rej (if uni then r .uni else r .bidiRemote))
+    else (sid, h.reviseSkipped rej (if uni then r .uni else r .bidiRemote))
+  let ctl' := (e.ctl.step (.revise rej rmd)).1
+  let base : Nat × Nat := if rej then (0, 0) else e.ms
+  let ms' : Nat × Nat := (max base.1 ms.1, max base.2 ms.2)
+  let wins := snd'.map fun (sid, h) => if h.rst.isSome then s!"{sid}:-" else s!"{sid}:{h.half.maxData}"
+  ({ e with snd := snd', ctl := ctl', ms := ms', p := ⟨e.p.l, r⟩,
+            w := if e.w == .client0rtt then .client else e.w },
+   s!"ok {ctlTail ctl'} wins={if wins.isEmpty then "-" else ",".intercalate wins}")
 
 /-- `Reader::poll_next` on stream `sidS`. -/
 def nextS (e : Ep) (sidS theirs : String) : Ep × Option String :=
@@ -196,11 +231,11 @@ def stepS (e : Ep) (op obs : List String) : Ep × Option String :=
         match kvNat obs "rwin" with
         | some rw =>
           if winOk e .loc .bi .send sw && winOk e .loc .bi .recv rw then
-            ({ e with snd := update e.snd sid (Sndr.init sw), rcv := update e.rcv sid (Rcvr.mk0 rw) }, none)
+            (noteOpen { e with snd := update e.snd sid (Sndr.init sw), rcv := update e.rcv sid (Rcvr.mk0 rw) } sid, none)
           else (e, some "window of a local bidi stream comes from neither table")
         | none => (e, some "BAD open obs")
       else
-        if winOk e .loc .uni .send sw then ({ e with snd := update e.snd sid (Sndr.init sw) }, none)
+        if winOk e .loc .uni .send sw then (noteOpen { e with snd := update e.snd sid (Sndr.init sw) } sid, none)
         else (e, some "window of a local uni stream comes from neither table")
     | _, _ => (e, some "BAD open obs")
   | ["peeropen", kind, sidS] =>
@@ -260,6 +295,7 @@ def stepS (e : Ep) (op obs : List String) : Ep × Option String :=
             match lookup e.snd sid with
             | none => (e, some "notok: frame on a stream without sending half")
             | some h =>
+              if !allowedS e sid then (e, some s!"notok: stream {sid} is beyond opened_streams = {openedS e (isUni sid)} (stream count in force)") else
               match h.emit a b (fin != 0) (availFor e.ctl cap) with
               | none => (e, some s!"notok: illegal frame; stream maxData={h.half.maxData} written={h.half.written} sentHi={h.half.sentHi} finReq={h.half.finReq} reset={h.rst.isSome} avail={availFor e.ctl cap}")
               | some (h', charge) =>
@@ -312,6 +348,20 @@ def stepS (e : Ep) (op obs : List String) : Ep × Option String :=
         | .half (.read n (some m)) => cmp e' s!"n={n} frames=MSD:{sid}:{m}"
         | .resetErr => cmp e' "err"
     | _, _ => (e, some "BAD read")
+  | ["zrtt", msS] =>
+    match (kv [msS] "ms").bind parse2 with
+    | some ms => cmp { e with ms := ms } "ok"
+    | none => (e, some "BAD zrtt")
+  | ["maxstreams", d, vS] =>
+    match vS.toNat? with
+    | some v => cmp { e with ms := put2 e.ms (d == "uni") (max (pick2 e.ms (d == "uni")) v) } "ok"
+    | none => (e, some "BAD maxstreams")
+  | ["revise", rejS, r, rmd, msS] =>
+    match rejS.toNat?, (kv [r] "r").bind parse3, kvNat [rmd] "rmd", (kv [msS] "ms").bind parse2 with
+    | some rej, some r, some rmd, some ms =>
+      let (e', mine) := reviseS e (rej != 0) r rmd ms
+      cmp e' mine
+    | _, _, _, _ => (e, some "BAD revise")
   | ["stop", sidS, codeS] =>
     match sidS.toNat?, codeS.toNat? with
     | some sid, some code =>
